@@ -22,6 +22,8 @@
 #include "stir/recon_buildblock/DataSymmetriesForBins_PET_CartesianGrid.h"
 #include "stir/recon_buildblock/SymmetryOperation.h"
 #include "stir/recon_buildblock/ProjMatrixByBinUsingRayTracing.h"
+#include "stir/recon_buildblock/ProjMatrixByBinUsingInterpolation.h"
+#include "stir/ProjDataInfoCylindricalNoArcCorr.h"
 #include "stir/recon_buildblock/ProjMatrixElemsForOneBin.h"
 #include "stir/ProjDataInfoCylindrical.h"
 #include "stir/ViewSegmentNumbers.h"
@@ -44,7 +46,7 @@ static void
 oracle_fail(const std::string& text)
 {
   ++oracle_fails;
-  if (oracle_fails <= 40)
+  if (oracle_fails <= (std::getenv("C03_FAIL_CLASSES") ? 1000000 : 40))
     std::fprintf(orc, "ORACLE-FAIL %s\n", text.c_str());
 }
 
@@ -62,7 +64,8 @@ struct GeoSpec
 {
   int N = 16, R = 3, span = 1, max_delta = 2, mash = 1, ntang = 7;
   bool arc = false;
-  int tof_bins = 0; // 0: non-TOF
+  int tof_bins = 0; // 0: non-TOF; otherwise the number of timing positions of the scanner
+  int tof_mash = 1; // TOF mashing factor of the data (tof_bins / tof_mash timing positions, an odd number)
   float tilt = 0.F;
   float zoom = 1.F;  // x voxel size = central tangential sampling / zoom
   float aniso = 1.F; // y voxel size = x voxel size * aniso
@@ -107,7 +110,7 @@ build_geo(const GeoSpec& sp, int id)
   shared_ptr<Scanner> scanner = vh::make_scanner(sp.N, sp.R, sp.tof_bins > 0 ? sp.tof_bins : -1);
   if (sp.tilt != 0.F)
     scanner->set_intrinsic_azimuthal_tilt(sp.tilt);
-  g->pdi = vh::make_pdi(scanner, sp.span, sp.max_delta, sp.N / 2 / sp.mash, sp.ntang, sp.arc, sp.tof_bins > 0 ? 1 : 0);
+  g->pdi = vh::make_pdi(scanner, sp.span, sp.max_delta, sp.N / 2 / sp.mash, sp.ntang, sp.arc, sp.tof_bins > 0 ? sp.tof_mash : 0);
   g->cyl = dynamic_cast<const ProjDataInfoCylindrical*>(g->pdi.get());
   const ProjDataInfo& p = *g->pdi;
   g->V = p.get_num_views();
@@ -126,8 +129,9 @@ build_geo(const GeoSpec& sp, int id)
   g->vx = p.get_sampling_in_s(Bin(0, 0, 0, 0)) / sp.zoom;
   g->vy = g->vx * sp.aniso;
   const float max_s = std::max(std::fabs(p.get_s(Bin(0, 0, 0, g->max_tang))), std::fabs(p.get_s(Bin(0, 0, 0, g->min_tang))));
-  const int nx = (sp.nx > 0 ? sp.nx : 2 * static_cast<int>(std::ceil(max_s / g->vx)) + 1) + sp.dnx;
-  const int ny = sp.same_nxy ? nx : (sp.ny > 0 ? sp.ny : 2 * static_cast<int>(std::ceil(max_s / g->vy)) + 1) + sp.dny;
+  // (at least 2 voxels: the generated reductions dnx, dny must not leave an empty image)
+  const int nx = std::max(2, (sp.nx > 0 ? sp.nx : 2 * static_cast<int>(std::ceil(max_s / g->vx)) + 1) + sp.dnx);
+  const int ny = sp.same_nxy ? nx : std::max(2, (sp.ny > 0 ? sp.ny : 2 * static_cast<int>(std::ceil(max_s / g->vy)) + 1) + sp.dny);
   g->miny = -(ny / 2);
   g->maxy = g->miny + ny - 1;
   g->minx = -(nx / 2);
@@ -186,7 +190,7 @@ spec_str(const GeoSpec& s)
 {
   std::ostringstream o;
   o << "N=" << s.N << " R=" << s.R << " span=" << s.span << " mash=" << s.mash << " ntang=" << s.ntang << " arc=" << s.arc
-    << " tof=" << s.tof_bins << " tilt=" << s.tilt << " zoom=" << s.zoom << " aniso=" << s.aniso << " nx=" << s.nx << "+" << s.dnx << " ny=" << s.ny << "+"
+    << " maxdelta=" << s.max_delta << " tof=" << s.tof_bins << "/" << s.tof_mash << " tilt=" << s.tilt << " zoom=" << s.zoom << " aniso=" << s.aniso << " nx=" << s.nx << "+" << s.dnx << " ny=" << s.ny << "+"
     << s.dny << " m=" << s.m
     << " extra=" << s.extra_lo << "," << s.extra_hi << " minz=" << s.minz << " originz=" << s.origin_planes << " originx=" << s.origin_x;
   return o.str();
@@ -252,9 +256,7 @@ section_A(const Geo& g, vh::Rng& rng, int bin_stride)
         histo[k]++;
       }
       const int offset = bin_stride > 1 ? rng.range(0, bin_stride - 1) : 0;
-      for (std::size_t i = offset; i < g.bins.size(); i += bin_stride)
-        {
-          const Bin b = g.bins[i];
+      auto emit = [&](const Bin& b, const bool check_rebuild) {
           std::fprintf(ops, "sym %s\n", bin_str(b).c_str());
           Bin b0 = b;
           const bool change = sym->find_basic_bin(b0);
@@ -291,11 +293,27 @@ section_A(const Geo& g, vh::Rng& rng, int bin_stride)
           a << " | " << (op->is_trivial() ? 1 : 0) << " " << (rowok ? 1 : 0);
           std::fprintf(out, "%s\n", a.str().c_str());
           // property statement on the implementation: the operation applied to the basic bin gives the bin back
+          if (!check_rebuild)
+            return;
           ++oracle_checks;
           if (!same_coords(ob, b))
             oracle_fail("symmetry operation applied to the basic bin does not give the original bin: flags=" + std::to_string(flags)
                         + " geo=[" + g.tokens + "] bin=" + bin_str(b) + " basic=" + bin_str(b2) + " got=" + bin_str(ob));
-        }
+      };
+      for (std::size_t i = offset; i < g.bins.size(); i += bin_stride)
+        emit(g.bins[i], true);
+      // timing positions other than 0 on non-TOF data: the only way to reach the timing-position swap of the swap_s
+      // operations with the view symmetries on (the constructor switches everything but shift_z off for TOF data).
+      // Correspondence with the model only: "operation(basic bin) = bin" is known to be false there
+      // (C03_symop_rebuilds_bin_tof_fails), which is why the constructor does what it does.
+      if (g.sp.tof_bins == 0)
+        for (int k = 0; k < 8; ++k)
+          {
+            Bin b = g.bins[rng.range(0, static_cast<int>(g.bins.size()) - 1)];
+            b.timing_pos_num() = (rng.coin() ? 1 : -1) * rng.range(1, 3);
+            emit(b, false);
+            histo["A:tof-probe-on-nonTOF-data"]++;
+          }
     }
 }
 
@@ -333,27 +351,70 @@ row_str(const SRow& r)
 
 struct MatrixCfg
 {
+  int kind = 0; // 0: ProjMatrixByBinUsingRayTracing, 1: ProjMatrixByBinUsingInterpolation
   int flags = 31;
-  int ntl = 1;
-  bool restrict_fov = true;
+  int ntl = 1;               // ray tracing only
+  bool restrict_fov = true;  // ray tracing only
+  bool actual = false;       // ray tracing only: set_use_actual_detector_boundaries
 };
 
-static void
-configure(ProjMatrixByBinUsingRayTracing& pm, const MatrixCfg& c)
+static const char* kind_name[2] = { "raytracing", "interpolation" };
+
+static shared_ptr<ProjMatrixByBin>
+new_matrix(int kind)
 {
-  pm.set_do_symmetry_90degrees_min_phi(c.flags & 1);
-  pm.set_do_symmetry_180degrees_min_phi(c.flags & 2);
-  pm.set_do_symmetry_swap_segment(c.flags & 4);
-  pm.set_do_symmetry_swap_s(c.flags & 8);
-  pm.set_do_symmetry_shift_z(c.flags & 16);
-  pm.set_num_tangential_LORs(c.ntl);
-  pm.set_restrict_to_cylindrical_FOV(c.restrict_fov);
+  if (kind == 0)
+    return shared_ptr<ProjMatrixByBin>(new ProjMatrixByBinUsingRayTracing);
+  return shared_ptr<ProjMatrixByBin>(new ProjMatrixByBinUsingInterpolation);
 }
+
+// the matrix parameters: through the set_* functions (ray tracing) or, as the interpolating matrix has none, through its
+// parser (values of keys that are not mentioned stay as they are)
+static void
+configure(ProjMatrixByBin& pm0, const MatrixCfg& c)
+{
+  if (c.kind == 0)
+    {
+      ProjMatrixByBinUsingRayTracing& pm = dynamic_cast<ProjMatrixByBinUsingRayTracing&>(pm0);
+      pm.set_do_symmetry_90degrees_min_phi(c.flags & 1);
+      pm.set_do_symmetry_180degrees_min_phi(c.flags & 2);
+      pm.set_do_symmetry_swap_segment(c.flags & 4);
+      pm.set_do_symmetry_swap_s(c.flags & 8);
+      pm.set_do_symmetry_shift_z(c.flags & 16);
+      pm.set_num_tangential_LORs(c.ntl);
+      pm.set_restrict_to_cylindrical_FOV(c.restrict_fov);
+      pm.set_use_actual_detector_boundaries(c.actual);
+    }
+  else
+    {
+      ProjMatrixByBinUsingInterpolation& pm = dynamic_cast<ProjMatrixByBinUsingInterpolation&>(pm0);
+      std::ostringstream t;
+      t << "Interpolation Matrix Parameters :=\n"
+        << "use_piecewise_linear_interpolation := 1\n"
+        << "do_symmetry_90degrees_min_phi := " << (c.flags & 1 ? 1 : 0) << "\n"
+        << "do_symmetry_180degrees_min_phi := " << (c.flags & 2 ? 1 : 0) << "\n"
+        << "do_symmetry_swap_segment := " << (c.flags & 4 ? 1 : 0) << "\n"
+        << "do_symmetry_swap_s := " << (c.flags & 8 ? 1 : 0) << "\n"
+        << "do_symmetry_shift_z := " << (c.flags & 16 ? 1 : 0) << "\n"
+        << "End Interpolation Matrix Parameters :=\n";
+      std::istringstream in(t.str());
+      if (!pm.parse(in))
+        {
+          std::fprintf(stderr, "c03 harness: ProjMatrixByBinUsingInterpolation::parse failed\n");
+          std::exit(3);
+        }
+    }
+}
+
+// use_actual_detector_boundaries stays on in set_up only for non-arc-corrected data without view mashing and axial
+// compression (otherwise set_up resets it with a warning)
+static bool
+actual_boundaries_effective(const struct Geo& g);
 
 // reference rows: a fresh matrix with all symmetries off and no cache, per (geometry, rays, FOV)
 struct Reference
 {
-  shared_ptr<ProjMatrixByBinUsingRayTracing> pm;
+  shared_ptr<ProjMatrixByBin> pm;
   std::map<std::string, SRow> rows;
   const SRow& row(const Bin& b)
   {
@@ -364,21 +425,30 @@ struct Reference
     return it->second;
   }
 };
-static std::map<std::tuple<int, int, bool>, shared_ptr<Reference>> references;
+static std::map<std::tuple<int, int, int, bool, bool>, shared_ptr<Reference>> references;
+
+static bool
+actual_boundaries_effective(const Geo& g)
+{
+  if (g.sp.arc || g.sp.mash != 1)
+    return false;
+  for (int s = g.min_seg; s <= g.max_seg; ++s)
+    if (g.cyl->get_min_ring_difference(s) != g.cyl->get_max_ring_difference(s))
+      return false;
+  return true;
+}
 
 static Reference&
-reference(const Geo& g, int ntl, bool restrict_fov)
+reference(const Geo& g, const MatrixCfg& cfg)
 {
-  auto key = std::make_tuple(g.id, ntl, restrict_fov);
+  auto key = std::make_tuple(g.id, cfg.kind, cfg.ntl, cfg.restrict_fov, cfg.actual);
   auto it = references.find(key);
   if (it == references.end())
     {
       shared_ptr<Reference> r(new Reference);
-      r->pm.reset(new ProjMatrixByBinUsingRayTracing);
-      MatrixCfg c;
+      r->pm = new_matrix(cfg.kind);
+      MatrixCfg c = cfg;
       c.flags = 0;
-      c.ntl = ntl;
-      c.restrict_fov = restrict_fov;
       configure(*r->pm, c);
       r->pm->enable_cache(false);
       r->pm->set_up(g.pdi, g.image);
@@ -403,10 +473,25 @@ near_half(double u)
 }
 
 static bool
-screened(const Geo& g, const Bin& b, int ntl, bool restrict_fov)
+screened(const Geo& g, const Bin& b, const MatrixCfg& cfg)
 {
-  const double phi = g.pdi->get_phi(b);
-  const double s = g.pdi->get_s(b);
+  if (cfg.kind == 1)
+    return false; // the interpolating matrix is continuous in the geometry: nothing to screen
+  const int ntl = cfg.ntl;
+  const bool restrict_fov = cfg.restrict_fov;
+  const bool actual = cfg.actual && actual_boundaries_effective(g);
+  double phi = g.pdi->get_phi(b);
+  double s = g.pdi->get_s(b);
+  if (actual)
+    {
+      // as calculate_proj_matrix_elems_for_one_bin does it, from the public detector-pair table
+      const ProjDataInfoCylindricalNoArcCorr& nac = dynamic_cast<const ProjDataInfoCylindricalNoArcCorr&>(*g.pdi);
+      const int num_detectors = g.pdi->get_scanner_ptr()->get_num_detectors_per_ring();
+      int d1 = 0, d2 = 0;
+      nac.get_det_num_pair_for_view_tangential_pos_num(d1, d2, b.view_num(), b.tangential_pos_num());
+      phi = static_cast<float>((d1 + d2) * _PI / num_detectors - _PI / 2 + nac.get_azimuthal_angle_offset());
+      s = static_cast<float>(g.pdi->get_scanner_ptr()->get_effective_ring_radius() * std::sin((d1 - d2) * _PI / num_detectors + _PI / 2));
+    }
   const double cphi = std::cos(phi), sphi = std::sin(phi);
   const double tantheta = g.pdi->get_tantheta(b);
   const double costheta = 1 / std::sqrt(1 + tantheta * tantheta);
@@ -417,7 +502,7 @@ screened(const Geo& g, const Bin& b, int ntl, bool restrict_fov)
       = -samp_z / (2 * nlz) * (nlz - 1) - g.image->get_origin().z() + (g.maxz + g.minz) / 2. * g.vz;
   const double fovrad = std::min(std::min(g.maxx, -g.minx) * static_cast<double>(g.vx), std::min(g.maxy, -g.miny) * static_cast<double>(g.vy));
   const bool along_y = std::fabs(sphi) < 1.E-4, along_x = std::fabs(cphi) < 1.E-4;
-  const double inc = g.pdi->get_sampling_in_s(b) / ntl;
+  const double inc = (actual ? 2 : 1) * g.pdi->get_sampling_in_s(b) / ntl;
   for (int k = 0; k < ntl; ++k)
     {
       const double sk = s - inc * (ntl - 1) / 2. + k * inc;
@@ -469,70 +554,10 @@ screened(const Geo& g, const Bin& b, int ntl, bool restrict_fov)
   return false;
 }
 
-// the property's statement for one returned row
-static void
-oracle_row(const Geo& g, const MatrixCfg& c, const char* mode, const Bin& b, const SRow& r, const char* where)
+// first voxel (if any) at which two rows differ by more than the library's own tolerance (2e-3 of the row maximum)
+static bool
+rows_differ(const SRow& r, const SRow& ref, std::string* what)
 {
-  ++oracle_checks;
-  if (!r.e.empty())
-    ++rows_nonempty;
-  rows_elements += static_cast<long>(r.e.size());
-  std::ostringstream ctx;
-  ctx << where << " flags=" << c.flags << " mode=" << mode << " rays=" << c.ntl << " cylFOV=" << c.restrict_fov << " geo=[" << spec_str(g.sp)
-      << "] bin=" << bin_str(b);
-  if (!same_coords(r.bin, b))
-    {
-      oracle_fail("returned row carries another bin (" + bin_str(r.bin) + "): " + ctx.str());
-      return;
-    }
-  // exact clauses
-  const float ring_spacing = g.pdi->get_scanner_ptr()->get_ring_spacing();
-  const float half_extent = g.sp.R * ring_spacing / 2;
-  for (std::size_t i = 0; i < r.e.size(); ++i)
-    {
-      const int z = std::get<0>(r.e[i].first), y = std::get<1>(r.e[i].first), x = std::get<2>(r.e[i].first);
-      if (!(r.e[i].second >= 0.F))
-        {
-          oracle_fail("negative (or NaN) element " + vh::hex(r.e[i].second) + ": " + ctx.str());
-          return;
-        }
-      if (i > 0 && r.e[i - 1].first == r.e[i].first)
-        {
-          oracle_fail("voxel " + std::to_string(z) + "," + std::to_string(y) + "," + std::to_string(x) + " occurs twice: " + ctx.str());
-          return;
-        }
-      if (y < g.miny || y > g.maxy || x < g.minx || x > g.maxx)
-        {
-          oracle_fail("voxel " + std::to_string(z) + "," + std::to_string(y) + "," + std::to_string(x)
-                      + " outside the image in x/y: " + ctx.str());
-          return;
-        }
-      if (z < g.minz || z > g.maxz)
-        {
-          // position of the voxel centre relative to the centre of the scanner
-          const float m = (z - (g.maxz + g.minz) / 2.F) * g.vz + g.image->get_origin().z();
-          if (std::fabs(m) <= half_extent + 1.E-3F)
-            known_candidate("voxel-outside-image-in-z:within-axial-extent-of-end-ring",
-                            "rows are not clipped to the planes of the image: a bin whose tube of response sticks out of the image "
-                            "axially (end rings; the image covers the ring centres but not the full axial extent of the scanner) has "
-                            "elements whose z index is outside the image (forward/back projection skip such elements): first case of "
-                            "this run: voxel z=" + std::to_string(z) + " with image planes " + std::to_string(g.minz) + ".."
-                                + std::to_string(g.maxz) + ": " + ctx.str());
-          else
-            {
-              oracle_fail("voxel " + std::to_string(z) + "," + std::to_string(y) + "," + std::to_string(x)
-                          + " outside the image in z, beyond the axial extent of the scanner: " + ctx.str());
-              return;
-            }
-        }
-    }
-  // same row as computed directly, up to the library's own tolerance
-  if (screened(g, b, c.ntl, c.restrict_fov))
-    {
-      ++oracle_screened;
-      return;
-    }
-  const SRow& ref = reference(g, c.ntl, c.restrict_fov).row(b);
   float mx = 0.F;
   for (auto& x : ref.e)
     mx = std::max(mx, x.second);
@@ -563,42 +588,235 @@ oracle_row(const Geo& g, const MatrixCfg& c, const char* mode, const Bin& b, con
       if (std::fabs(a - d) > tol)
         {
           std::ostringstream m;
-          m << "row differs from the directly computed row at voxel " << std::get<0>(k) << "," << std::get<1>(k) << "," << std::get<2>(k)
-            << ": " << a << " vs " << d << " (row max " << mx << "): " << ctx.str();
-          oracle_fail(m.str());
+          m << "voxel " << std::get<0>(k) << "," << std::get<1>(k) << "," << std::get<2>(k) << ": " << a << " vs " << d << " (row max " << mx << ")";
+          *what = m.str();
+          return true;
+        }
+    }
+  return false;
+}
+
+// the switches in force in the symmetries object of a matrix that has been set up
+struct Eff
+{
+  bool d90 = false, d180 = false, seg = false, s = false, z = false;
+};
+
+static Eff
+effective(const ProjMatrixByBin& pm)
+{
+  Eff e;
+  const DataSymmetriesForBins_PET_CartesianGrid* y = dynamic_cast<const DataSymmetriesForBins_PET_CartesianGrid*>(pm.get_symmetries_ptr());
+  if (y)
+    {
+      e.d90 = y->using_symmetry_90degrees_min_phi();
+      e.d180 = y->using_symmetry_180degrees_min_phi();
+      e.seg = y->using_symmetry_swap_segment();
+      e.s = y->using_symmetry_swap_s();
+      e.z = y->using_symmetry_shift_z();
+    }
+  return e;
+}
+
+// with use_actual_detector_boundaries: is the angle computed from the detector pair about pi away from the angle of the view?
+// (detector numbers are taken modulo the number of detectors; the same formulas as calculate_proj_matrix_elems_for_one_bin)
+static bool
+phi_off_by_pi(const Geo& g, const Bin& b)
+{
+  const ProjDataInfoCylindricalNoArcCorr& nac = dynamic_cast<const ProjDataInfoCylindricalNoArcCorr&>(*g.pdi);
+  const int num_detectors = g.pdi->get_scanner_ptr()->get_num_detectors_per_ring();
+  int d1 = 0, d2 = 0;
+  nac.get_det_num_pair_for_view_tangential_pos_num(d1, d2, b.view_num(), b.tangential_pos_num());
+  const float phi = static_cast<float>((d1 + d2) * _PI / num_detectors - _PI / 2 + nac.get_azimuthal_angle_offset());
+  return std::fabs(phi - g.pdi->get_phi(b)) > _PI / 2;
+}
+
+// the property's statement for one returned row (pm: the matrix that returned it)
+static void
+oracle_row(const Geo& g, const MatrixCfg& c, const char* mode, const Bin& b, const SRow& r, const char* where, const ProjMatrixByBin& pm)
+{
+  ++oracle_checks;
+  if (!r.e.empty())
+    ++rows_nonempty;
+  rows_elements += static_cast<long>(r.e.size());
+  std::ostringstream ctx;
+  ctx << where << " matrix=" << kind_name[c.kind] << " flags=" << c.flags << " mode=" << mode << " rays=" << c.ntl << " cylFOV=" << c.restrict_fov
+      << " actual_detector_boundaries=" << c.actual << " geo=[" << spec_str(g.sp)
+      << "] bin=" << bin_str(b);
+  if (!same_coords(r.bin, b))
+    {
+      oracle_fail("returned row carries another bin (" + bin_str(r.bin) + "): " + ctx.str());
+      return;
+    }
+  // exact clauses
+  const float ring_spacing = g.pdi->get_scanner_ptr()->get_ring_spacing();
+  const float half_extent = g.sp.R * ring_spacing / 2;
+  for (std::size_t i = 0; i < r.e.size(); ++i)
+    {
+      const int z = std::get<0>(r.e[i].first), y = std::get<1>(r.e[i].first), x = std::get<2>(r.e[i].first);
+      if (!(r.e[i].second >= 0.F))
+        {
+          oracle_fail("negative (or NaN) element " + vh::hex(r.e[i].second) + ": " + ctx.str());
           return;
         }
+      if (i > 0 && r.e[i - 1].first == r.e[i].first)
+        {
+          oracle_fail("voxel " + std::to_string(z) + "," + std::to_string(y) + "," + std::to_string(x) + " occurs twice: " + ctx.str());
+          return;
+        }
+      if (y < g.miny || y > g.maxy || x < g.minx || x > g.maxx)
+        {
+          oracle_fail("voxel " + std::to_string(z) + "," + std::to_string(y) + "," + std::to_string(x)
+                      + " outside the image in x/y: " + ctx.str());
+          return;
+        }
+      if ((z < g.minz || z > g.maxz) && c.kind == 1)
+        {
+          // the interpolating matrix: the voxel must at least lie in the axial support of the interpolation kernel around the
+          // LOR: |m(voxel) - m(bin)| <= 1.25 max(z voxel size, axial sampling) (piecewise-linear kernel for voxels of half
+          // the sampling; the linear kernel is narrower), m(voxel) = z - tan(theta) (-x sin(phi) + y cos(phi))
+          const float zmm = (z - (g.maxz + g.minz) / 2.F) * g.vz + g.image->get_origin().z();
+          const float phi = g.pdi->get_phi(b);
+          const float mvox = zmm - g.pdi->get_tantheta(b) * (-x * g.vx * std::sin(phi) + y * g.vy * std::cos(phi));
+          const float support = 1.25F * std::max(g.vz, g.pdi->get_sampling_in_m(b));
+          if (std::fabs(mvox - g.pdi->get_m(b)) <= support + 1.E-3F)
+            known_candidate("voxel-outside-image-in-z:interpolation-matrix:within-axial-support-of-kernel",
+                            "rows of ProjMatrixByBinUsingInterpolation are not clipped to the planes of the image: "
+                            "calculate_proj_matrix_elems_for_one_bin takes its z range from the geometry of the LOR, not from the "
+                            "image (its own comment: 'we have to include voxels with negative z... Horrible'), so bins near the "
+                            "axial ends (and oblique bins at the edge of the FOV) have elements up to 1.25 axial samplings outside "
+                            "the image, with and without symmetries: first case of this run: voxel z=" + std::to_string(z) + " with image planes "
+                                + std::to_string(g.minz) + ".." + std::to_string(g.maxz) + ": " + ctx.str());
+          else
+            {
+              oracle_fail("voxel " + std::to_string(z) + "," + std::to_string(y) + "," + std::to_string(x)
+                          + " outside the image in z, beyond the axial support of the interpolation kernel: " + ctx.str());
+              return;
+            }
+        }
+      else if (z < g.minz || z > g.maxz)
+        {
+          // position of the voxel centre relative to the centre of the scanner
+          const float m = (z - (g.maxz + g.minz) / 2.F) * g.vz + g.image->get_origin().z();
+          if (std::fabs(m) <= half_extent + 1.E-3F)
+            known_candidate("voxel-outside-image-in-z:within-axial-extent-of-end-ring",
+                            "rows are not clipped to the planes of the image: a bin whose tube of response sticks out of the image "
+                            "axially (end rings; the image covers the ring centres but not the full axial extent of the scanner) has "
+                            "elements whose z index is outside the image (forward/back projection skip such elements): first case of "
+                            "this run: voxel z=" + std::to_string(z) + " with image planes " + std::to_string(g.minz) + ".."
+                                + std::to_string(g.maxz) + ": " + ctx.str());
+          else
+            {
+              oracle_fail("voxel " + std::to_string(z) + "," + std::to_string(y) + "," + std::to_string(x)
+                          + " outside the image in z, beyond the axial extent of the scanner: " + ctx.str());
+              return;
+            }
+        }
+    }
+  // same row as computed directly, up to the library's own tolerance
+  if (screened(g, b, c))
+    {
+      ++oracle_screened;
+      return;
+    }
+  const SRow& ref = reference(g, c).row(b);
+  std::string what;
+  if (!rows_differ(r, ref, &what))
+    return;
+  // classes of inputs for which the statement is known to fail (each named by the input, not by the outcome)
+  const Eff e = effective(pm);
+  Bin b0 = b;
+  pm.get_symmetries_ptr()->find_basic_bin(b0);
+  const bool view_moved = b0.view_num() != b.view_num();
+  if (c.kind == 0 && c.actual && actual_boundaries_effective(g))
+    {
+      if ((e.d90 || e.d180) && view_moved && std::abs(b.tangential_pos_num()) % 2 == 1)
+        {
+          known_candidate("actual-detector-boundaries:view-symmetry:odd-tangential-pos",
+                          "ProjMatrixByBinUsingRayTracing with use_actual_detector_boundaries and the 90/180 degrees symmetries: with the "
+                          "actual detector boundaries the LORs of odd tangential positions lie half a view further (interleaving, "
+                          "phi = view*pi/num_views - pi/num_detectors), so the mirror image of view v is not view num_views-v as "
+                          "DataSymmetriesForBins_PET_CartesianGrid assumes: the row derived from the basic bin differs from the row "
+                          "computed directly: first case of this run: " + what + ": " + ctx.str());
+          return;
+        }
+      if (b.segment_num() != 0 && phi_off_by_pi(g, b) != phi_off_by_pi(g, b0))
+        {
+          known_candidate("actual-detector-boundaries:oblique-segment:phi-off-by-pi",
+                          "ProjMatrixByBinUsingRayTracing with use_actual_detector_boundaries: det_num1+det_num2 is taken modulo the "
+                          "number of detectors, so for some (view, tangential position) phi comes out pi away from the angle of the "
+                          "view with s of the opposite sign: the same line in a direct plane but its mirror image in z in an oblique "
+                          "segment; a bin and its basic bin (swap_s, view symmetries) are not both affected, so derived and directly "
+                          "computed row differ: first case of this run: " + what + ": " + ctx.str());
+          return;
+        }
+    }
+  if (c.kind == 1 && std::fabs(g.vx - g.vy) > 2.E-3F && e.d180 && view_moved)
+    {
+      const float phi = g.pdi->get_phi(b);
+      if (std::cos(phi) < 0 && -std::cos(phi) > std::sin(phi))
+        {
+          known_candidate("interpolation-matrix:anisotropic-voxels:view-beyond-135-degrees",
+                          "ProjMatrixByBinUsingInterpolation::get_element chooses the voxel size for the tangential kernel by "
+                          "'cphi > sphi' instead of |cphi| > |sphi|: for views beyond 135 degrees (cos(phi) < 0) it takes the y voxel "
+                          "size where the mirror-image view below 45 degrees takes the x voxel size, so with x voxel size != y voxel "
+                          "size the row derived by the 180 degrees symmetry differs from the row computed directly: first case of "
+                          "this run: " + what + ": " + ctx.str());
+          return;
+        }
+    }
+  oracle_fail("row differs from the directly computed row at " + what + ": " + ctx.str());
+  if (std::getenv("C03_FAIL_CLASSES"))
+    {
+      std::ostringstream k;
+      k << "F:" << kind_name[c.kind] << ":actual=" << c.actual << ":tof=" << (g.sp.tof_bins > 0) << ":span=" << g.sp.span << ":aniso=" << g.sp.aniso
+        << ":flags=" << c.flags << ":seg" << (b.segment_num() == 0 ? "0" : "!=0") << ":tangodd=" << (std::abs(b.tangential_pos_num()) % 2);
+      histo[k.str()]++;
     }
 }
 
 // ------------------------------------------------------------------------------------------------ section C
 
+struct Sweep
+{
+  int kind = 0;
+  std::vector<int> ntls = { 1 };
+  std::vector<int> restricts = { 1 };
+  std::vector<int> actuals = { 0 };
+  int flag_stride = 1;
+};
+
 static void
-section_C(const Geo& g, vh::Rng& rng, const std::vector<int>& ntls, const std::vector<int>& restricts, int flag_stride)
+section_C(const Geo& g, vh::Rng& rng, const Sweep& sw)
 {
   static const char* mode_name[3] = { "nocache", "basic", "full" };
-  for (int ntl : ntls)
-    for (int restrict_fov : restricts)
-      for (int flags = rng.range(0, flag_stride - 1); flags < 32; flags += flag_stride)
+  for (int ntl : sw.ntls)
+    for (int restrict_fov : sw.restricts)
+     for (int actual : sw.actuals)
+      for (int flags = rng.range(0, sw.flag_stride - 1); flags < 32; flags += sw.flag_stride)
         for (int mode = 0; mode < 3; ++mode)
           {
             MatrixCfg c;
+            c.kind = sw.kind;
             c.flags = flags;
             c.ntl = ntl;
             c.restrict_fov = restrict_fov;
-            ProjMatrixByBinUsingRayTracing pm;
+            c.actual = actual;
+            shared_ptr<ProjMatrixByBin> pm_sptr = new_matrix(c.kind);
+            ProjMatrixByBin& pm = *pm_sptr;
             configure(pm, c);
             pm.enable_cache(mode != 0);
             pm.store_only_basic_bins_in_cache(mode == 1);
             pm.set_up(g.pdi, g.image);
             for (std::size_t i = 0; i < g.bins.size(); ++i)
-              oracle_row(g, c, mode_name[mode], g.bins[i], fetch(pm, g.bins[i]), "sweep");
+              oracle_row(g, c, mode_name[mode], g.bins[i], fetch(pm, g.bins[i]), "sweep", pm);
             // second pass in another order: now (mostly) served from the cache
             const std::size_t n = g.bins.size();
             const std::size_t step = 1 + 2 * rng.range(0, 20);
             for (std::size_t i = 0; i < n; i += step)
-              oracle_row(g, c, mode_name[mode], g.bins[n - 1 - i], fetch(pm, g.bins[n - 1 - i]), "sweep2");
-            histo[std::string("C:") + mode_name[mode]]++;
+              oracle_row(g, c, mode_name[mode], g.bins[n - 1 - i], fetch(pm, g.bins[n - 1 - i]), "sweep2", pm);
+            histo[std::string("C:") + (c.kind ? "interp-" : "") + (c.actual ? (actual_boundaries_effective(g) ? "actual-" : "actual(reset)-") : "")
+                  + (g.sp.tof_bins > 0 ? "tof-" : "") + mode_name[mode]]++;
           }
 }
 
@@ -609,21 +827,107 @@ pset_tokens(const MatrixCfg& c)
 {
   std::ostringstream s;
   s << (c.flags & 1 ? 1 : 0) << " " << (c.flags & 2 ? 1 : 0) << " " << (c.flags & 4 ? 1 : 0) << " " << (c.flags & 8 ? 1 : 0) << " "
-    << (c.flags & 16 ? 1 : 0) << " " << c.ntl << " " << (c.restrict_fov ? 1 : 0);
+    << (c.flags & 16 ? 1 : 0) << " " << c.ntl << " " << (c.restrict_fov ? 1 : 0) << " " << (c.actual ? 1 : 0);
   return s.str();
 }
 
-static std::set<std::string> data_sent; // (geometry, rays, FOV, basic bin) whose computed row has been sent to the model
+// ------------------------------------------------------------------------------------------------ probes
+
+// Two ways in which a row can depend on the geometries a matrix object was set up for before ("after setting the matrix
+// up again for another geometry"), each checked on the implementation before the histories are generated.  If the
+// implementation fails a probe, this is reported (KNOWN-CANDIDATE with a stable key) and the histories of section B state
+// the parameters again (set_* / parse) before every set_up, which makes the object forget; if it passes, the histories
+// do not, and the exact comparison with the model covers the class.
+static bool reassert_params_before_setup[2] = { false, false };
+// does set_up leave the 90/180 degrees symmetries on when use_actual_detector_boundaries stays on? (told to the model)
+static int impl_keeps_view_symmetries_with_actual = 1;
 
 static void
-history(const std::vector<shared_ptr<Geo>>& geos, vh::Rng& rng, int num_events)
+probes(const Geo& elig, const Geo& nonelig, const Geo& coarse_z, const Geo& fine_z)
 {
-  shared_ptr<ProjMatrixByBinUsingRayTracing> pm(new ProjMatrixByBinUsingRayTracing);
-  std::fprintf(ops, "pnew\n");
+  {
+    MatrixCfg c;
+    c.actual = true;
+    ProjMatrixByBinUsingRayTracing pm;
+    configure(pm, c);
+    pm.set_up(elig.pdi, elig.image);
+    impl_keeps_view_symmetries_with_actual = effective(pm).d180 ? 1 : 0;
+    histo[impl_keeps_view_symmetries_with_actual ? "P:view-symmetries-kept-with-actual-boundaries" : "P:view-symmetries-off-with-actual-boundaries"]++;
+  }
+  {
+    // use_actual_detector_boundaries: set_up for data for which it cannot be used (span 3), then for data for which it can
+    MatrixCfg c;
+    c.flags = 0;
+    c.actual = true;
+    ProjMatrixByBinUsingRayTracing pm;
+    configure(pm, c);
+    pm.enable_cache(false);
+    pm.set_up(nonelig.pdi, nonelig.image);
+    pm.set_up(elig.pdi, elig.image);
+    for (const Bin& b : elig.bins)
+      {
+        ++oracle_checks;
+        std::string what;
+        if (rows_differ(fetch(pm, b), reference(elig, c).row(b), &what))
+          {
+            reassert_params_before_setup[0] = true;
+            known_candidate("set_up-history:use-actual-detector-boundaries:reset-persists",
+                            "ProjMatrixByBinUsingRayTracing::set_up resets the member use_actual_detector_boundaries to false for data "
+                            "with view mashing / axial compression / arc correction and never restores it: after "
+                            "set_use_actual_detector_boundaries(true); set_up(span-3 data); set_up(span-1 data) the rows are those without "
+                            "the actual detector boundaries, while a new object set up for the span-1 data alone uses them: first case "
+                            "of this run: bin " + bin_str(b) + " " + what + " geo=[" + spec_str(elig.sp) + "] after geo=[" + spec_str(nonelig.sp) + "]");
+          }
+      }
+    histo["P:actual-boundaries-after-other-data"]++;
+  }
+  {
+    // the interpolating matrix: set_up for z voxel size = axial sampling, then for half of it
+    MatrixCfg c;
+    c.kind = 1;
+    c.flags = 0;
+    ProjMatrixByBinUsingInterpolation pm;
+    std::istringstream in("Interpolation Matrix Parameters :=\ndo_symmetry_90degrees_min_phi := 0\ndo_symmetry_180degrees_min_phi := 0\n"
+                          "do_symmetry_swap_segment := 0\ndo_symmetry_swap_s := 0\ndo_symmetry_shift_z := 0\nEnd Interpolation Matrix Parameters :=\n");
+    pm.parse(in);
+    pm.enable_cache(false);
+    pm.set_up(coarse_z.pdi, coarse_z.image);
+    pm.set_up(fine_z.pdi, fine_z.image);
+    for (const Bin& b : fine_z.bins)
+      {
+        ++oracle_checks;
+        std::string what;
+        if (rows_differ(fetch(pm, b), reference(fine_z, c).row(b), &what))
+          {
+            reassert_params_before_setup[1] = true;
+            known_candidate("set_up-history:interpolation-matrix:piecewise-linear-interpolation-switched-off-persists",
+                            "ProjMatrixByBinUsingInterpolation::set_up switches use_piecewise_linear_interpolation_now (the variable the "
+                            "parser writes to) off when the z voxel size is not half the axial sampling and never switches it on again: "
+                            "after set_up(image with z voxel size = ring spacing); set_up(image with half of it) the rows are linearly "
+                            "interpolated, while a new object set up for the second image alone interpolates piecewise-linearly: first "
+                            "case of this run: bin " + bin_str(b) + " " + what + " geo=[" + spec_str(fine_z.sp) + "] after geo=[" + spec_str(coarse_z.sp) + "]");
+          }
+      }
+    histo["P:interpolation-after-other-voxel-size"]++;
+  }
+}
+
+static std::set<std::string> data_sent; // (matrix class, geometry, rays, FOV, detector boundaries, basic bin) whose computed row has been sent to the model
+
+static void
+history(const std::vector<shared_ptr<Geo>>& geos, vh::Rng& rng, int num_events, int kind = 0)
+{
+  shared_ptr<ProjMatrixByBin> pm = new_matrix(kind);
+  std::fprintf(ops, "pnew %d %d\n", kind, impl_keeps_view_symmetries_with_actual);
   std::fprintf(out, "ok\n");
   MatrixCfg c;
+  c.kind = kind;
   c.flags = rng.range(0, 31);
-  c.ntl = rng.range(0, 3) == 0 ? 2 : 1;
+  if (kind == 0)
+    {
+      c.ntl = rng.range(0, 3) == 0 ? 2 : 1;
+      c.actual = rng.range(0, 3) == 0;
+    }
   const Geo* g = geos[rng.range(0, static_cast<int>(geos.size()) - 1)].get();
   bool cache_enabled = true, basic_only = true;
   const char* mode = "basic";
@@ -633,6 +937,8 @@ history(const std::vector<shared_ptr<Geo>>& geos, vh::Rng& rng, int num_events)
     std::fprintf(out, "ok\n");
   };
   auto do_setup = [&]() -> bool {
+    if (reassert_params_before_setup[kind])
+      do_pset();
     std::fprintf(ops, "psetup %d\n", g->id);
     try
       {
@@ -699,14 +1005,18 @@ history(const std::vector<shared_ptr<Geo>>& geos, vh::Rng& rng, int num_events)
     Bin b0 = b;
     pm->get_symmetries_ptr()->find_basic_bin(b0);
     std::ostringstream key;
-    key << g->id << "/" << c.ntl << "/" << c.restrict_fov << "/" << bin_str(b0);
+    key << c.kind << "/" << g->eqclass << "/" << c.ntl << "/" << c.restrict_fov << "/" << c.actual << "/" << bin_str(b0);
     std::string data;
     if (data_sent.insert(key.str()).second)
-      data = " data " + bin_str(b0) + " " + row_str(reference(*g, c.ntl, c.restrict_fov).row(b0));
+      data = " data " + bin_str(b0) + " " + row_str(reference(*g, c).row(b0));
     std::fprintf(ops, "pget %s%s\n", bin_str(b).c_str(), data.c_str());
     std::fprintf(out, "row %s %s\n", bin_str(r.bin).c_str(), row_str(r).c_str());
-    oracle_row(*g, c, mode, b, r, "history");
-    histo[std::string("B:get-") + mode]++;
+    oracle_row(*g, c, mode, b, r, "history", *pm);
+    histo[std::string("B:") + (c.kind ? "interp-" : "") + "get-" + mode]++;
+    if (c.actual)
+      histo[actual_boundaries_effective(*g) ? "B:get-with-actual-boundaries" : "B:get-with-actual-boundaries(reset)"]++;
+    if (g->sp.tof_bins > 0)
+      histo["B:get-tof"]++;
     recent.push_back(b);
     if (recent.size() > 8)
       recent.erase(recent.begin());
@@ -749,12 +1059,14 @@ history(const std::vector<shared_ptr<Geo>>& geos, vh::Rng& rng, int num_events)
         {
           // change parameters (symmetry switches, sometimes the number of rays / FOV) and set up again for the same geometry
           const int k = rng.range(0, 9);
-          if (k < 6)
+          if (k < 5 || (kind == 1 && k < 9))
             c.flags ^= 1 << rng.range(0, 4);
-          else if (k < 8)
+          else if (k < 7)
             c.ntl = c.ntl == 1 ? 2 : 1;
-          else if (k < 9)
+          else if (k < 8)
             c.restrict_fov = !c.restrict_fov;
+          else if (k < 9)
+            c.actual = !c.actual;
           // k == 9: "set" to the same values: set_up must be allowed to skip
           do_pset();
           if (!do_setup())
@@ -784,7 +1096,7 @@ history(const std::vector<shared_ptr<Geo>>& geos, vh::Rng& rng, int num_events)
 // the matrix up again for another geometry"), in every cache mode, also for rows that were in the cache before.
 // (The early return of ProjMatrixByBinUsingRayTracing::set_up used to ignore the index range: repaired.)
 static void
-section_E(const Geo& g1, const Geo& g2, vh::Rng& rng)
+section_E(const Geo& g1, const Geo& g2, vh::Rng& rng, int kind = 0)
 {
   static const char* mode_name[3] = { "nocache", "basic", "full" };
   if (!same_data_voxel_origin(g1, g2) || same_index_range(g1, g2))
@@ -795,9 +1107,15 @@ section_E(const Geo& g1, const Geo& g2, vh::Rng& rng)
   for (int mode = 0; mode < 3; ++mode)
     {
       MatrixCfg c;
+      c.kind = kind;
       c.flags = rng.range(0, 31);
-      c.ntl = rng.range(1, 2);
-      ProjMatrixByBinUsingRayTracing pm;
+      if (kind == 0)
+        {
+          c.ntl = rng.range(1, 2);
+          c.actual = rng.range(0, 2) == 0;
+        }
+      shared_ptr<ProjMatrixByBin> pm_sptr = new_matrix(kind);
+      ProjMatrixByBin& pm = *pm_sptr;
       configure(pm, c);
       pm.enable_cache(mode != 0);
       pm.store_only_basic_bins_in_cache(mode == 1);
@@ -806,8 +1124,8 @@ section_E(const Geo& g1, const Geo& g2, vh::Rng& rng)
         fetch(pm, g1.bins[i]);
       pm.set_up(g2.pdi, g2.image);
       for (std::size_t i = 0; i < g2.bins.size(); ++i)
-        oracle_row(g2, c, mode_name[mode], g2.bins[i], fetch(pm, g2.bins[i]), "set_up-other-index-range");
-      histo["E:pairs"]++;
+        oracle_row(g2, c, mode_name[mode], g2.bins[i], fetch(pm, g2.bins[i]), "set_up-other-index-range", pm);
+      histo[kind ? "E:interp-pairs" : "E:pairs"]++;
     }
 }
 
@@ -881,16 +1199,39 @@ random_spec(vh::Rng& rng, bool small)
   static const int Ns[] = { 8, 12, 16, 20, 24, 10, 14 };
   s.N = Ns[rng.range(0, small ? 4 : 6)];
   s.R = rng.range(2, small ? 3 : 4);
-  s.span = rng.range(0, 2) == 0 ? 3 : 1;
-  if (s.span == 3 && s.R < 3)
+  {
+    // span 1 / 3 mostly, even spans (segment 0 then has span+1 ring differences, the others span: half-integer
+    // average ring differences) now and then
+    const int sk = rng.range(0, 7);
+    s.span = sk < 3 ? 1 : (sk < 6 ? 3 : (sk == 6 ? 2 : 4));
+  }
+  if (s.span >= 3 && s.R < 3)
     s.R = 3;
   s.max_delta = s.R - 1;
+  if (rng.range(0, 2) == 0)
+    s.max_delta = rng.range(s.span / 2, s.R - 1); // outer segments cut off (the last segment may be narrower than the others)
   s.mash = 1;
   if ((s.N / 2) % 2 == 0 && rng.range(0, 3) == 0)
     s.mash = 2;
   s.ntang = std::max(3, s.N / 2 - 1 - rng.range(0, 1));
   s.arc = rng.range(0, 3) == 0;
   s.tof_bins = 0;
+  if (rng.range(0, 3) == 0)
+    {
+      // TOF: 3, 5 or 9 timing positions of the scanner, the 9 also mashed by 3; smaller scanners (every timing position
+      // multiplies the number of bins)
+      static const int tb[] = { 3, 5, 9, 9 };
+      const int k = rng.range(0, 3);
+      s.tof_bins = tb[k];
+      s.tof_mash = k == 3 ? 3 : 1;
+      static const int tNs[] = { 8, 12, 10, 16 };
+      s.N = tNs[rng.range(0, 3)];
+      if ((s.N / 2) % 2 != 0)
+        s.mash = 1;
+      s.R = std::min(s.R, 3);
+      s.max_delta = std::min(s.max_delta, s.R - 1);
+      s.ntang = std::max(3, std::min(s.N / 2 - 1 - rng.range(0, 1), 5));
+    }
   const int vk = rng.range(0, 5);
   s.zoom = vk == 0 ? 2.F : (vk == 1 ? .5F : (vk == 2 ? 1.3F : 1.F));
   {
@@ -954,6 +1295,34 @@ main(int argc, char** argv)
     GeoSpec d; // the standard image of a 3-ring scanner, span 1: 5 planes of half the ring spacing
     d.m = 2;
     full.push_back(build_geo(d, next_id++));
+    GeoSpec e; // TOF with span 3, view mashing (4 views), TOF mashing (9 timing positions mashed to 3), even image size
+    e.N = 16;
+    e.mash = 2;
+    e.R = 3;
+    e.span = 3;
+    e.ntang = 5;
+    e.tof_bins = 9;
+    e.tof_mash = 3;
+    e.dnx = e.dny = -1;
+    e.extra_lo = 1;
+    full.push_back(build_geo(e, next_id++));
+    GeoSpec f; // even span (segment 0: ring differences -1..1, segments +-1: 2..3, average ring difference +-2.5)
+    f.N = 12;
+    f.R = 4;
+    f.span = 2;
+    f.max_delta = 3;
+    f.ntang = 5;
+    f.zoom = 1.2F;
+    full.push_back(build_geo(f, next_id++));
+    GeoSpec h; // outer segments cut off: span 3, 4 rings, max_delta 2 < R-1: segments +-1 hold ring difference +-2 only
+               // (axial sampling = ring spacing there, half of it in segment 0)
+    h.N = 8;
+    h.R = 4;
+    h.span = 3;
+    h.max_delta = 2;
+    h.ntang = 3;
+    h.m = 2;
+    full.push_back(build_geo(h, next_id++));
   }
   const int nrandom_full = thorough ? 30 : 3;
   for (int k = 0; k < nrandom_full; ++k)
@@ -1005,22 +1374,57 @@ main(int argc, char** argv)
   // ---- section C (oracle sweeps) on the geometries the ray tracing matrix accepts
   for (std::size_t k = 0; k < full.size(); ++k)
     {
-      std::vector<int> ntls = { 1, 2 };
+      Sweep sw;
+      sw.ntls = { 1, 2 };
       if (thorough)
-        ntls.push_back(3);
-      std::vector<int> restricts = { 1 };
+        sw.ntls.push_back(3);
       if (thorough || k == 0)
-        restricts.push_back(0);
-      section_C(*full[k], rng, ntls, restricts, 1);
+        sw.restricts.push_back(0);
+      // TOF data: the constructor leaves shift_z only, so the 32 combinations are 2 classes: sample them
+      if (full[k]->sp.tof_bins > 0 && !thorough)
+        sw.flag_stride = 4;
+      section_C(*full[k], rng, sw);
+      // use_actual_detector_boundaries (phi and s of every bin from the detector pair): where set_up keeps it on, and
+      // on one geometry where set_up resets it
+      if (actual_boundaries_effective(*full[k]) || k == 1)
+        {
+          Sweep sa;
+          sa.actuals = { 1 };
+          sa.ntls = { 1, 2 };
+          if (thorough)
+            sa.restricts.push_back(0);
+          sa.flag_stride = (thorough || k == 0) ? 1 : 4;
+          section_C(*full[k], rng, sa);
+        }
+      // ProjMatrixByBinUsingInterpolation
+      {
+        Sweep si;
+        si.kind = 1;
+        si.flag_stride = (thorough || k < 2) ? 1 : 4;
+        section_C(*full[k], rng, si);
+      }
     }
   for (auto& g : sampled)
     if (g->sp.origin_x == 0.F && g->sp.origin_planes == std::floor(g->sp.origin_planes))
-      section_C(*g, rng, { 1 }, { 1 }, thorough ? 1 : 4);
+      {
+        Sweep sw;
+        sw.flag_stride = thorough ? 1 : 4;
+        section_C(*g, rng, sw);
+        if (actual_boundaries_effective(*g))
+          {
+            sw.actuals = { 1 };
+            section_C(*g, rng, sw);
+          }
+        Sweep si;
+        si.kind = 1;
+        si.flag_stride = std::getenv("C03_ALLFLAGS") ? 1 : (thorough ? 2 : 8);
+        section_C(*g, rng, si);
+      }
 
   // ---- section B (histories): geometry groups that differ in one aspect only
   shared_ptr<Geo> g_a2, g_a7;
   {
-    std::vector<shared_ptr<Geo>> group1, group2, group3;
+    std::vector<shared_ptr<Geo>> group1, group2, group3, group4, groupI;
     GeoSpec a;
     group1.push_back(full[0]);
     GeoSpec a3 = a; // same data, same image size, other voxel size
@@ -1054,11 +1458,21 @@ main(int argc, char** argv)
     GeoSpec c2 = full[2]->sp;
     c2.zoom = .8F;
     group3.push_back(build_geo(c2, next_id++));
-    std::vector<shared_ptr<Geo>> bad = { sampled[4] };
-    for (auto* grp : { &group1, &group2, &group3, &bad })
+    group3.push_back(full[4]); // TOF, span 3, view and TOF mashing
+    group4.push_back(full[5]); // even span
+    group4.push_back(full[6]); // outer segments cut off
+    group4.push_back(full[1]);
+    group4.push_back(full[0]);
+    // the interpolating matrix: full[0] and full[3] differ in the z voxel size only (ring spacing, half of it)
+    groupI.push_back(full[0]);
+    groupI.push_back(full[3]);
+    groupI.push_back(full[1]);
+    groupI.push_back(g_a2);
+    std::vector<shared_ptr<Geo>> bad = { sampled[5] }; // z origin not a whole number of planes
+    for (auto* grp : { &group1, &group2, &group3, &group4, &groupI, &bad })
       {
         for (auto& g : *grp)
-          std::fprintf(ops, "pgeo %d %d %s\n", g->id, g->eqclass, g->tokens.c_str()), std::fprintf(out, "ok\n");
+          std::fprintf(ops, "pgeo %d %d %d %s\n", g->id, g->eqclass, actual_boundaries_effective(*g) ? 1 : 0, g->tokens.c_str()), std::fprintf(out, "ok\n");
         // no two members of a group may be the same geometry (equal projection data, voxel size, origin and index range)
         for (auto& g : *grp)
           for (auto& o : *grp)
@@ -1068,9 +1482,12 @@ main(int argc, char** argv)
                 return 3;
               }
       }
-    const int nhist = thorough ? 160 : 16;
+    probes(*full[0], *full[1], *full[0], *full[3]);
+    const int nhist = thorough ? 200 : 20;
     for (int h = 0; h < nhist; ++h)
-      history(h % 4 == 3 ? group3 : (h % 4 == 2 ? group2 : group1), rng, thorough ? 300 : 160);
+      history(h % 5 == 4 ? group4 : (h % 5 == 3 ? group3 : (h % 5 == 2 ? group2 : group1)), rng, thorough ? 300 : 160);
+    for (int h = 0; h < (thorough ? 40 : 4); ++h)
+      history(groupI, rng, thorough ? 200 : 100, 1);
     // error branch of set_up: z origin not a whole number of planes
     history(bad, rng, 1);
   }
@@ -1080,6 +1497,8 @@ main(int argc, char** argv)
   section_E(*g_a2, *full[0], rng);
   section_E(*full[0], *g_a7, rng);
   section_E(*g_a7, *full[0], rng);
+  section_E(*full[0], *g_a2, rng, 1);
+  section_E(*g_a7, *full[0], rng, 1);
 
   // ---- section D
   section_D(rng, thorough ? 3000 : 400);
